@@ -544,7 +544,8 @@ impl Translator {
             | FuncKind::ForeignFunctionWrapper { .. }
             | FuncKind::HostFunctionWrapper(_) => {
                 st.return_stack.pop();
-                let SolvedType::Function(_, out_ty) = func_ty else { unreachable!() };
+                // a generic result type may be instantiated to void (e.g. `unwrap` of `option<void>`)
+                let SolvedType::Function(_, out_ty) = func_ty.subst(&mono) else { unreachable!() };
                 if *out_ty == SolvedType::Void {
                     self.emit(st, Instr::ReturnVoid);
                 } else {
